@@ -40,8 +40,8 @@ try:
             res['confirmed'] = False
             print(json.dumps(res, indent=1)); sys.exit(2)
         # regenerate the patch against current HEAD
-        newp = sh('git -C %s diff -- tdda' % wt).stdout
-        sh('git -C %s checkout -- tdda' % wt)
+        newp = sh('git -C %s diff HEAD -- tdda' % wt).stdout      # (--3way stages what it applies)
+        sh('git -C %s reset -q --hard HEAD' % wt)
         patch = os.path.join('/tmp', 'rebased_%s.diff' % sid)
         open(patch, 'w').write(newp)
     d0 = sh('cd %s && /venv/bin/python demo.py' % wt)
